@@ -120,9 +120,9 @@ def prove(pid, modules):
         if rc != 0:
             broken.append(Broken(f"audit.{pid}", out[-3000:]))
         else:
-            for m in re.finditer(r"'([^']+)' depends on axioms: \[([^\]]*)\]", out):
+            for m in re.finditer(r"'(\S+)' depends on axioms: \[([^\]]*)\]", out):
                 axioms[m.group(1)] = [a.strip() for a in m.group(2).replace("\n", " ").split(",") if a.strip()]
-            for m in re.finditer(r"'([^']+)' does not depend on any axioms", out):
+            for m in re.finditer(r"'(\S+)' does not depend on any axioms", out):
                 axioms[m.group(1)] = []
             for n in names:
                 if n not in axioms:
@@ -225,7 +225,7 @@ def run(pid, tier, seed, replay=None):
     timings = {}
     fatal = None
     try:
-        timings = pl.prepare(backends)
+        timings = pl.prepare(backends, getattr(prop, "HARNESS_GROUPS", pl.ALL_GROUPS))
     except Broken as b:
         fatal = b
         broken.append(b)
@@ -263,7 +263,8 @@ def run(pid, tier, seed, replay=None):
     # classify
     relevant = getattr(prop, "relevant", lambda c: True)
     oracle_fail = [c for c in cases if c.verdict.startswith("FAIL") and relevant(c)]
-    disagree = [c for c in cases if c.impl != c.model]
+    differs = getattr(prop, "disagrees", lambda c: c.impl != c.model)
+    disagree = [c for c in cases if differs(c)]
     if disagree:
         broken.append(Broken("corr." + disagree[0].line.split(" ")[0],
                              f"{len(disagree)} disagreeing lines; first: {disagree[0].as_dict()}"))
